@@ -182,8 +182,10 @@ type Cmd struct {
 	Groups      []*Group // sub-groups
 	Pos         []*PosArg
 	PosRequired string // required tag on the positional-args struct
-	Cmds        []*Cmd
-	Exec        bool // data is an *ExecCmd (API path only; options go into an added group)
+	// ArgsRequiredAPI: the program sets Command.ArgsRequired itself after building (no tag)
+	ArgsRequiredAPI bool
+	Cmds            []*Cmd
+	Exec            bool // data is an *ExecCmd (API path only; options go into an added group)
 
 	Parent *Cmd
 	ID     string
@@ -615,6 +617,9 @@ func (d *Decl) BuildTags() *Built {
 	var mapCmds func(fc *flags.Command, c *Cmd)
 	mapCmds = func(fc *flags.Command, c *Cmd) {
 		b.Cmds[c] = fc
+		if c.ArgsRequiredAPI {
+			fc.ArgsRequired = true
+		}
 		for _, cc := range c.Cmds {
 			if sub := fc.Find(cc.Name); sub != nil {
 				mapCmds(sub, cc)
@@ -684,6 +689,9 @@ func (d *Decl) BuildAPIWith(between func(b *Built)) *Built {
 	}
 	p.SubcommandsOptional = d.Top.SubOptional
 	b.Cmds[d.Top] = p.Command
+	if d.Top.ArgsRequiredAPI {
+		p.ArgsRequired = true
+	}
 	var addCmds func(parent *flags.Command, cs []*Cmd) error
 	addCmds = func(parent *flags.Command, cs []*Cmd) error {
 		for _, c := range cs {
@@ -695,7 +703,14 @@ func (d *Decl) BuildAPIWith(between func(b *Built)) *Built {
 				b.ExecIDs[id] = c
 				st := &ExecState{ID: id, log: &b.ExecLog}
 				b.Execs[c] = st
-				if len(c.Pos) > 0 && c.Pos[0].Type == TInt {
+				if len(c.Pos) > 0 && c.Pos[0].Type == TInt && c.PosRequired == "" {
+					e := &ExecCmdPosIntOpt{st: st}
+					data = e
+					ev := reflect.ValueOf(e).Elem().FieldByName("Args")
+					for _, a := range c.Pos {
+						b.PosVals[a] = ev.FieldByName(a.Field)
+					}
+				} else if len(c.Pos) > 0 && c.Pos[0].Type == TInt {
 					e := &ExecCmdPosInt{st: st}
 					data = e
 					ev := reflect.ValueOf(e).Elem().FieldByName("Args")
@@ -739,6 +754,9 @@ func (d *Decl) BuildAPIWith(between func(b *Built)) *Built {
 				}
 			}
 			fc.Aliases = c.Aliases
+			if c.ArgsRequiredAPI {
+				fc.ArgsRequired = true
+			}
 			fc.SubcommandsOptional = c.SubOptional
 			fc.Hidden = c.Hidden
 			b.Cmds[c] = fc
